@@ -514,19 +514,24 @@ def install(ex):
             has, val = S["id_has"], S["id_val"]
             return AbsIter("idvalues", set_iter(lambda I2: has, lambda I2, i: SRef("job", z3.Select(val, i)), "id"))
         k = d.conn
-        has, val = z3.Select(S["R_has"], k), z3.Select(S["R_val"], k)
 
         def release(I2, i):
             hook = I2.ghost.get("on_take_running")
             if hook:
                 hook(I2, k, i)
-        return AbsIter("idvalues", set_iter(lambda I2: has, lambda I2, i: SRef("job", z3.Select(val, i)), "id", release))
+        # running_jobs of a connection: iterated over the current state's view (the loop that
+        # iterates it - shutdown - re-queues and thereby releases each visited entry)
+        return AbsIter("idvalues", set_iter(lambda I2: z3.Select(st(I2)["R_has"], k),
+                                            lambda I2, i: SRef("job", sel2(st(I2)["R_val"], k, i)), "id", release, stable=False))
     ex.methods[("iddict", "values")] = Model("dict.values view", id_values)
 
     def id_items(I, d):
         S = st(I)
         has, val = S["id_has"], S["id_val"]
-        return AbsIter("iditems", set_iter(lambda I2: has, lambda I2, i: (SInt(i), SRef("job", z3.Select(val, i))), "id"))
+        it = AbsIter("iditems", set_iter(lambda I2: has, lambda I2, i: (SInt(i), SRef("job", z3.Select(val, i))), "id"))
+        it.snapshot = (has, val)
+        I.ghost["last_items_snapshot"] = (has, val)
+        return it
     ex.methods[("iddict", "items")] = Model("dict.items view", id_items)
 
     def len_hook(I, v):
@@ -911,6 +916,9 @@ def _mentions(f, v):
 _clause_vars = {}
 
 
+EXTENDED = False      # C17 adds the clauses I14 / I15 to the invariant (set by contracts/c17.py)
+
+
 def clause_schemas(S):
     """Inv(S) as typed schemas: one per clause, over exactly the variables it mentions.
     The clause formulas are built once (for the state terms at this moment) and
@@ -918,6 +926,8 @@ def clause_schemas(S):
     cl = inv_clauses(S.copy(), *BOUND)
     out = []
     for name, f in cl.items():
+        if not EXTENDED and name.startswith(("I14_", "I15_")):
+            continue
         if name not in _clause_vars:
             _clause_vars[name] = [n for n, v in enumerate(BOUND) if _mentions(f, v)]
         idx = _clause_vars[name]
@@ -936,7 +946,7 @@ _inv_cache = {}
 def inv_quantified(S):
     """Inv(S) as a list of (label, Forall schema | closed formula); memoised on the state
     terms so that `Inv of an unchanged state` is recognised as already assumed"""
-    key = tuple(S.t[k].get_id() for k in sorted(S.t))
+    key = (EXTENDED,) + tuple(S.t[k].get_id() for k in sorted(S.t))
     hit = _inv_cache.get(key)
     if hit is None:
         snap = S.copy()
@@ -952,9 +962,11 @@ def assume_inv(I, S, extra=None):
         I.assume(f)
 
 
-def oblige_inv(I, S, prefix="inv"):
+def oblige_inv(I, S, prefix="inv", skip=()):
     """one obligation per clause, the outer forall skolemised by fresh typed constants"""
     for name, f in inv_quantified(S):
+        if name in skip:
+            continue
         I.oblige(f"{prefix}.{name}", f)
 
 
@@ -982,6 +994,78 @@ def preenall_contract(I, w):
         hook()
     return None
 
+
+
+# ----------------------------------------------------------------------------- contract of workq.pushjob
+PUSHJOB_TOUCHED = {"j_serial", "j_jobid", "id_has", "id_val", "TQ", "a_ready", "a_value", "holder", "q_has", "Q", "count"}
+
+
+def eligible_unready(S, x, ch):
+    return z3.And(z3.Select(S["W"], x), z3.Not(z3.Select(S["a_ready"], x)),
+                  z3.Or(z3.Select(z3.Select(S["a_watch"], x), ch), z3.Select(S["a_any"], x)))
+
+
+def pushjob_post(S0, S1, j, count0, count1, handoff_to):
+    """the exact transition of workq.pushjob(job) as a relation between the state before
+    (S0, count0) and after (S1, count1); `handoff_to` is the chosen waiter (a term) or None
+    for the queued case.  Verified against the body by C16 'jobs.workq.pushjob[contract]',
+    used at the call sites in pop() and QPlugin.shutdown()."""
+    serial0 = z3.Select(S0["j_serial"], j)
+    serial1 = z3.If(serial0 == 0, count0 + 1, serial0)
+    jid0 = z3.Select(S0["j_jobid"], j)
+    jid1 = z3.If(jid0 == 0, serial1, jid0)
+    ch = z3.Select(S0["j_chan"], j)
+    out = [("count", count1 == z3.If(serial0 == 0, count0 + 1, count0)),
+           ("serial", S1["j_serial"] == z3.Store(S0["j_serial"], j, serial1)),
+           ("jobid", S1["j_jobid"] == z3.Store(S0["j_jobid"], j, jid1)),
+           ("id_has", S1["id_has"] == z3.Store(S0["id_has"], jid1, True)),
+           ("id_val", S1["id_val"] == z3.Store(S0["id_val"], jid1, j)),
+           ("timeoutq", S1["TQ"] == z3.Store(S0["TQ"], j, z3.Select(S0["TQ"], j) + 1))]
+    for k in FIELDS:
+        if k not in PUSHJOB_TOUCHED:
+            out.append(("frame_" + k, S1[k] == S0[k]))
+    if handoff_to is not None:
+        w = handoff_to
+        out += [("handoff_to_an_eligible_unready_waiter", eligible_unready(S0, w, ch)),
+                ("handoff_ready", S1["a_ready"] == z3.Store(S0["a_ready"], w, True)),
+                ("handoff_value", S1["a_value"] == z3.Store(S0["a_value"], w, j)),
+                ("handoff_holder", S1["holder"] == z3.Store(S0["holder"], j, w)),
+                ("handoff_queues_untouched", z3.And(S1["Q"] == S0["Q"], S1["q_has"] == S0["q_has"]))]
+    else:
+        q0 = z3.If(z3.Select(S0["q_has"], ch), z3.Select(S0["Q"], ch), z3.K(Z, z3.IntVal(0)))
+        out += [("queued_q_has", S1["q_has"] == z3.Store(S0["q_has"], ch, True)),
+                ("queued_Q", S1["Q"] == z3.Store(S0["Q"], ch, z3.Store(q0, j, z3.Select(q0, j) + 1))),
+                ("queued_waiters_untouched", z3.And(S1["a_ready"] == S0["a_ready"], S1["a_value"] == S0["a_value"],
+                                                    S1["holder"] == S0["holder"]))]
+    return out, jid1
+
+
+def pushjob_contract(I, w, job):
+    """call-site use of the pushjob contract: havoc the touched part of the state, assume the
+    verified transition relation (one fork: handed to a waiter / queued)"""
+    S0 = st(I)
+    j = job.z
+    count0 = z3_of(w.fields["count"])
+    ch = z3.Select(S0["j_chan"], j)
+    pre = I.ghost.get("pushjob_pre")
+    if pre:
+        pre(I, S0, j)
+    S1 = S0.copy()
+    for k in PUSHJOB_TOUCHED:
+        if k != "count":
+            S1[k] = I.fresh("pj_" + k, FIELDS[k])
+    count1 = I.fresh("pj_count", Z)
+    wv = I.fresh("handoff@waiter", Z)
+    if I.decide(eligible_unready(S0, wv, ch)):
+        rel, jid1 = pushjob_post(S0, S1, j, count0, count1, wv)
+    else:
+        I.assume(Forall(["waiter"], lambda x: z3.Not(eligible_unready(S0, x, ch)), "no_eligible_unready_waiter"))
+        rel, jid1 = pushjob_post(S0, S1, j, count0, count1, None)
+    for label, f in rel:
+        I.assume(f)
+    I.ghost["S"] = S1
+    w.fields["count"] = SInt(count1)
+    return SInt(jid1)
 
 
 def state_loop_spec(extra=None, extra_havoc=(), rebinding=None):
